@@ -60,8 +60,8 @@ def member_names(spec) -> list:
 
 
 def decl_source(f) -> str:
-    ty = {"int": "T" if f.get("tv") else "int", "any": "Any", "optint": "Optional[int]",
-          "nested": "Optional[N]" if f["dflt"] == "none" else "N"}[f["ty"]]
+    ty = f["tystr"] if "tystr" in f else {"int": "T" if f.get("tv") else "int", "any": "Any", "optint": "Optional[int]",
+                                         "nested": "Optional[N]" if f["dflt"] == "none" else "N"}[f["ty"]]
     if f["ann"] is not None:
         items = ", ".join(f"Alias({a[1]!r})" if a[0] == "alias" else "'other'" for a in f["ann"])
         ty = f"Annotated[{ty}, {items}]"
@@ -92,7 +92,7 @@ MIXINS = {"dict": "DataClassDictMixin", "json": "DataClassJSONMixin", "orjson": 
 def class_source(spec) -> str:
     """Self-contained Python source: [Base with the Config discriminator,] the ancestors A, B and the class K."""
     L = ["from dataclasses import dataclass, field, InitVar",
-         "from typing import Any, ClassVar, Generic, Optional, TypeVar",
+         "from typing import Any, ClassVar, Dict, Generic, List, Optional, TypeVar",
          "from typing_extensions import Annotated",
          "from mashumaro import DataClassDictMixin",
          "from mashumaro.mixins.json import DataClassJSONMixin",
@@ -1102,6 +1102,312 @@ def nested_stream(ctx, rng, k4_ok):
 
 
 
+
+# ---------------------------------------------------------------------------
+# dataclass-typed fields at any depth and inside Optional / List / Dict[str, .]
+# ---------------------------------------------------------------------------
+# type codes: ("scalar",) | ("cls", name) | ("opt", t) | ("list", t) | ("map", t)
+
+def ty_str(t) -> str:
+    return {"scalar": lambda: "Any", "cls": lambda: t[1], "opt": lambda: f"Optional[{ty_str(t[1])}]",
+            "list": lambda: f"List[{ty_str(t[1])}]", "map": lambda: f"Dict[str, {ty_str(t[1])}]"}[t[0]]()
+
+
+def ty_coq(t, idx) -> str:
+    if t[0] == "scalar":
+        return "TScalar"
+    if t[0] == "cls":
+        return f"(TCls {idx[t[1]]})"
+    return "(" + {"opt": "TOpt", "list": "TList", "map": "TMap"}[t[0]] + " " + ty_coq(t[1], idx) + ")"
+
+
+def gen_deep(rng):
+    def decl(n, t, dflt, tag, scalar_ty):
+        meta = rng.choice([None, f"m{tag}_{n}", "s1"]) if rng.random() < 0.6 else None
+        ann = [("alias", rng.choice([f"a{tag}_{n}", "s2"]))] if rng.random() < 0.25 else None
+        d = {"name": n, "meta": meta, "ann": ann, "init": True, "dflt": dflt, "ty": scalar_ty, "mo": False, "kw": False,
+             "tv": False, "t": t}
+        if t[0] != "scalar":
+            d["tystr"] = ty_str(t)
+        return d
+
+    def cfg(names, tag):
+        return {"plain": False, "inherit": None,
+                "aliases": {n: rng.choice([f"c{tag}_{n}", "s1", "s2"]) for n in names if rng.random() < 0.4},
+                "allow": rng.random() < 0.5, "forbid": rng.random() < 0.5}
+
+    def wrap(base):
+        r = rng.random()
+        if r < 0.3:
+            return base
+        if r < 0.5:
+            return ("opt", base)
+        if r < 0.75:
+            return ("list", base)
+        if r < 0.9:
+            return ("map", base)
+        return rng.choice([("list", ("opt", base)), ("map", ("list", base)), ("opt", ("list", base))])
+
+    def mk(cname, names, types, scalar_ty, inner):
+        k = rng.randrange(len(names) + 1)
+        decls = []
+        for i, (n, t) in enumerate(zip(names, types)):
+            has_d = i >= len(names) - k
+            if t[0] == "scalar":
+                dflt = "int" if has_d else None
+            else:
+                dflt = "none" if (has_d and t[0] == "opt") else None
+                if has_d and dflt is None:
+                    k = len(names) - i - 1        # no default here: the following ones keep theirs
+            decls.append(decl(n, t, dflt, cname.lower(), scalar_ty))
+        # dataclass rule: no field without default after one with default
+        seen = False
+        for f in decls:
+            if f["dflt"] is not None:
+                seen = True
+            elif seen:
+                for g in decls:
+                    g["dflt"] = None
+                break
+        return {"levels": [{"cls": cname, "decls": decls, "config": cfg(names, cname.lower())}], "classvar": [], "initvar": [],
+                "shape": "chain", "generic": False, "discr": None, "mixin": rng.choice([None, "dict"]), "inner": inner}
+    n2 = mk("N2", ["r", "s"][:rng.choice([1, 2])], [("scalar",)] * 2, "int", None)
+    n1_names = ["p", "q"][:rng.choice([1, 2, 2])]
+    n1_types = [rng.choice([("scalar",), wrap(("cls", "N2"))]) for _ in n1_names]
+    n1 = mk("N1", n1_names, n1_types, "int", n2)
+    k_names = NAMES[:rng.choice([1, 2, 2, 3])]
+    k_types = [rng.choice([("scalar",), wrap(("cls", "N1")), wrap(("cls", "N1")), wrap(("cls", "N2"))]) for _ in k_names]
+    if all(t[0] == "scalar" for t in k_types):
+        k_types[0] = wrap(("cls", "N1"))
+    top = mk("K", k_names, k_types, "any", n1)
+    top["mixin"] = rng.choice([None, "dict", "json"])
+    return top
+
+
+def deep_classes(spec) -> dict:
+    out = {}
+    sp = spec
+    while sp is not None:
+        out[sp["levels"][0]["cls"]] = sp
+        sp = sp.get("inner")
+    return out
+
+
+def o_deep(classes, cname, d, top=True):
+    """every class applies its own key rules to the mapping it is given; what sits under the chosen key is decoded by the
+    field type; below the outermost class every failure is just a failure (InvalidFieldValue of the outermost field)"""
+    spec = classes[cname]
+    if not isinstance(d, dict):
+        return ("fail",)
+    acc = o_accepted(spec)
+    extra = [k for k in d if k not in acc]
+    if o_config(spec)["forbid"] and extra:
+        return ("extra", extra) if top else ("fail",)
+    vals = []
+    for f in o_fields(spec):
+        for k in o_candidates(spec, f):
+            if k in d:
+                ok, v = o_deep_value(classes, f["t"], d[k])
+                if not ok:
+                    return ("invalid", f["name"]) if top else ("fail",)
+                vals.append((f["name"], v))
+                break
+        else:
+            if f["dflt"] is None:
+                return ("missing", f["name"]) if top else ("fail",)
+            vals.append((f["name"], o_default(f)))
+    return ("inst", vals)
+
+
+def o_deep_value(classes, t, v):
+    if t[0] == "scalar":
+        return (type(v) is int or v is None), v
+    if t[0] == "cls":
+        r = o_deep(classes, t[1], v, top=False)
+        return (r[0] == "inst"), (("obj", t[1], r[1]) if r[0] == "inst" else None)
+    if t[0] == "opt":
+        return (True, None) if v is None else o_deep_value(classes, t[1], v)
+    if t[0] == "list":
+        if isinstance(v, dict) and not v:
+            return True, ("list", [])           # any empty iterable is an empty list (a type question, not a key question)
+        if not isinstance(v, list):
+            return False, None
+        rs = [o_deep_value(classes, t[1], x) for x in v]
+        return all(a for a, _ in rs), ("list", [b for _, b in rs])
+    if not isinstance(v, dict):
+        return False, None
+    rs = [(k, o_deep_value(classes, t[1], x)) for k, x in v.items()]
+    return all(a for _, (a, _) in rs), ("map", [(k, b) for k, (_, b) in rs])
+
+
+def gen_deep_value(classes, t, rng, depth=0):
+    if t[0] == "scalar":
+        return rng.randrange(300, 400)
+    r = rng.random()
+    if r < 0.06:
+        return rng.choice([rng.randrange(300, 400), None, [], {}])          # often not what the type wants
+    if t[0] == "opt":
+        return None if rng.random() < 0.3 else gen_deep_value(classes, t[1], rng, depth)
+    if t[0] == "list":
+        return [gen_deep_value(classes, t[1], rng, depth) for _ in range(rng.choice([0, 1, 1, 2]))]
+    if t[0] == "map":
+        ks = rng.sample(["k1", "k2", "s1", "r", "x"], rng.choice([0, 1, 1, 2]))
+        return {k: gen_deep_value(classes, t[1], rng, depth) for k in ks}
+    return gen_deep_dict(classes, t[1], rng, depth + 1)
+
+
+def gen_deep_dict(classes, cname, rng, depth=0, keys=None):
+    spec = classes[cname]
+    if keys is None:
+        keys = [k for k in candidate_keys(spec, rng, limit=6) if isinstance(k, str)]
+        keys = [k for k in keys if rng.random() < 0.65]
+    rng.shuffle(keys)
+    role = {}
+    for f in o_fields(spec):
+        for k in o_candidates(spec, f):
+            role.setdefault(k, []).append(f["t"])
+    d = {}
+    for k in keys:
+        ts = role.get(k, [])
+        if len(ts) == 1 or (ts and all(t == ts[0] for t in ts)):
+            d[k] = gen_deep_value(classes, ts[0], rng, depth)
+        else:
+            d[k] = rng.randrange(300, 400)          # strangers and keys shared by fields of different types
+    return d
+
+
+def deep_obs(v):
+    import dataclasses
+    if dataclasses.is_dataclass(v) and not isinstance(v, type):
+        return ("obj", type(v).__name__, [(f.name, deep_obs(getattr(v, f.name))) for f in dataclasses.fields(v)])
+    if isinstance(v, list):
+        return ("list", [deep_obs(x) for x in v])
+    if isinstance(v, dict):
+        return ("map", [(k, deep_obs(x)) for k, x in v.items()])
+    return v
+
+
+def observe_deep(call, d):
+    from mashumaro.exceptions import ExtraKeysError, InvalidFieldValue, MissingField
+    import copy
+    try:
+        obj = call(copy.deepcopy(d))
+    except ExtraKeysError as e:
+        ek = set(e.extra_keys)
+        if any(k not in d for k in ek):
+            return ("exc", f"ExtraKeysError.extra_keys {ek!r} is not a set of input keys")
+        return ("extra", [k for k in d if k in ek])
+    except MissingField as e:
+        return ("missing", e.field_name)
+    except InvalidFieldValue as e:
+        return ("invalid", e.field_name)
+    except Exception as e:
+        return ("exc", f"{type(e).__name__}: {e}")
+    o = deep_obs(obj)
+    if not (isinstance(o, tuple) and o[0] == "obj" and o[1] == "K"):
+        return ("exc", f"result is {o!r}")
+    return ("inst", o[2])
+
+
+def c_nv(v) -> str:
+    if isinstance(v, dict):
+        return "(VD [" + "; ".join(f"({c_key(k)}, {c_nv(x)})" for k, x in v.items()) + "])"
+    if isinstance(v, list):
+        return "(VL [" + "; ".join(c_nv(x) for x in v) + "])"
+    return f"(VZ {c_val(v)})"
+
+
+def c_rv(v) -> str:
+    if isinstance(v, tuple) and v[0] == "obj":
+        return "(RObj [" + "; ".join(f"({coq_str(n)}, Some {c_rv(x)})" for n, x in v[2]) + "])"
+    if isinstance(v, tuple) and v[0] == "list":
+        return "(RList [" + "; ".join(c_rv(x) for x in v[1]) + "])"
+    if isinstance(v, tuple) and v[0] == "map":
+        return "(RMap [" + "; ".join(f"({c_key(k)}, {c_rv(x)})" for k, x in v[1]) + "])"
+    if v is None or type(v) is int:
+        return f"(RZ {c_val(v)})"
+    return "(RList [RZ 424242])"           # never produced by the model
+
+
+def deep_stream(ctx, rng, k4_ok):
+    import json
+    from mashumaro.codecs import BasicDecoder
+    from mashumaro.codecs.json import JSONDecoder
+    items, shown = [], []
+    order = ["N2", "N1", "K"]
+    idx = {n: i for i, n in enumerate(order)}
+    for ci in range(ctx.budget(40, 200)):
+        spec = gen_deep(rng)
+        classes = deep_classes(spec)
+        src = class_source(spec)
+        try:
+            mod = build_class(src)
+            K = mod.K
+            ents = ([("K.from_dict", K.from_dict)] if spec["mixin"] else []) + [("BasicDecoder(K).decode", BasicDecoder(K).decode)]
+            jd = JSONDecoder(K)
+            ents.append(("JSONDecoder(K).decode", lambda d, jd=jd: jd.decode(json.dumps(d))))
+            if spec["mixin"] == "json":
+                ents.append(("K.from_json", lambda d, K=K: K.from_json(json.dumps(d))))
+        except Exception as e:
+            ctx.fail(f"class creation fails: {type(e).__name__}: {e}",
+                     {"entry": "class-creation", "source": src, "spec": spec, "input": [], "observed": repr(e),
+                      "expected": "classes N2, N1 and K are created"}, {"kind": "class-creation", "exc": type(e).__name__})
+            continue
+        ctx.hist("deep_types", " ".join(sorted({ty_str(f["t"]) for c in classes.values() for f in o_fields(c) if f["t"][0] != "scalar"})))
+        tb = []
+        for n in order:
+            c = classes[n]
+            tys = "; ".join(f"({coq_str(f['name'])}, {ty_coq(f['t'], idx)})" for f in o_fields(c) if f["t"][0] != "scalar")
+            tb.append(f"mkN (class_of {c_spec(c)} None) [{tys}]")
+        dtxt = f"Definition tb{ci} : list ncls := [{'; '.join(tb)}]."
+        dfl = "[" + "; ".join(f"({coq_str(f['name'])}, {c_val(o_default(f))})" for c in classes.values() for f in o_fields(c)
+                              if f["dflt"] is not None) + "]"
+        okeys = [k for k in candidate_keys(spec, rng, limit=6) if isinstance(k, str)]
+        for ks in subsets(okeys, rng, ctx.budget(20, 64)):
+            d = gen_deep_dict(classes, "K", rng, keys=list(ks))
+            exp = o_deep(classes, "K", d)
+            obs0 = None
+            for ename, call in ents:
+                obs = observe_deep(call, d)
+                ctx.count(("deep", ci, repr(d), ename))
+                ctx.hist("outcome", obs[0] + " (deep stream)")
+                obs0 = obs if obs0 is None else obs0
+                if obs != exp:
+                    ctx.fail(f"{ename}({d!r}) -> {obs!r}, KEYMODEL says {exp!r}",
+                             dict(replay_of(spec, src, ename, {}, obs, exp), input_deep=d),
+                             {"kind": "nested-key-resolution", "observed": obs[0], "expected": exp[0]})
+            if obs0[0] == "inst":
+                co = "(DInst [" + "; ".join(f"({coq_str(n)}, Some {c_rv(v)})" for n, v in obs0[1]) + "])"
+            elif obs0[0] == "missing":
+                co = f"(DMissing {coq_str(obs0[1])})"
+            elif obs0[0] == "invalid":
+                co = f"(DInvalid {coq_str(obs0[1])})"
+            elif obs0[0] == "extra":
+                co = "(DExtra [" + "; ".join(c_key(k) for k in obs0[1]) + "])"
+            else:
+                co = '(DMissing "<unexpected exception>")'
+            items.append((ci, dtxt, f"(tb{ci}, {dfl}, [" + "; ".join(f"({c_key(k)}, {c_nv(v)})" for k, v in d.items()) + f"], {co})"))
+            shown.append((src, d, obs0))
+        drop_module(mod)
+    okb = ("fun c => match c with (tb, dfl, d, o) => doutcome_eqb (dfl_of dfl) (deep_impl 12 tb 2 d) o "
+           "&& doutcome_eqb (dfl_of dfl) (deep_ref 12 tb 2 d) o end")
+    ctype = "list ncls * list (string * Z) * list (key * nv) * doutcome"
+    if k4_ok:
+        bad, log = coq_check("c09_deep", ("KeyModel KeyImpl KeyProofs KeyNested KeyDeep PyK_alias", "From VerifGen Require Import K4.",
+                                          ["theories/KeyDeep.vo"]), items, okb, ctx, ctype=ctype, shard=250)
+    else:
+        bad, log = None, "kernel K4 did not translate (KeyDeep is built on it)"
+    name = "deep: deep_impl(K4)/deep_ref-vs-from_dict"
+    if bad is None:
+        ctx.correspondence(name, len(items), -1, log)
+        ctx.not_shown("correspondence " + name, log)
+    else:
+        det = "" if not bad else f"{len(bad)} cases, first: input {shown[bad[0]][1]!r}: implementation {shown[bad[0]][2]!r}\n{shown[bad[0]][0]}"
+        ctx.correspondence(name, len(items), len(bad), det)
+        if bad:
+            ctx.not_shown("correspondence " + name, det)
+
+
 # ---------------------------------------------------------------------------
 # the class table with the real MROs: CPython's dataclass walk / get_type_hints vs KeyDc
 # ---------------------------------------------------------------------------
@@ -1248,7 +1554,7 @@ def dc_check(ctx, dc_items, dc_shown):
 THEOREMS = ["K4_precedence", "K4_key_plan", "K4_allowed_keys", "C09_impl_is_code", "C09_keys", "C09_keys_hier",
             "C09_nearest_declaration", "C09_nearest_config", "C09_get_config", "C09_builder_config", "C09_fields_unique", "C09_alias_from_sources",
             "C09_mro_chain", "C09_mro_roots", "C09_own_view_finished", "C09_own_view_raw", "C09_nested", "C09_nested_inner_options", "C09_pre_hook", "C09_nearest_hook", "C09_hook_rename",
-            "C09_dc_lookup", "C09_dc_chain", "C09_dc_roots", "C09_dataclass_fields_dc",
+            "C09_dc_lookup", "C09_dc_chain", "C09_dc_roots", "C09_dataclass_fields_dc", "C09_deep", "C09_deep_list", "C09_deep_map_keys",
             "C09_field_key", "C09_outcome", "C09_alias_wins", "C09_fallback", "C09_accepted_covers_reads",
             "C09_reads_allowed", "C09_extra_members", "C09_extra_exact", "C09_ignored", "C09_forbidden_reported"]
 
@@ -1329,6 +1635,7 @@ def run(ctx: vlib.Ctx):
     if k4_ok:
         kernel_validation(ctx, rng)
     nested_stream(ctx, rng, k4_ok)
+    deep_stream(ctx, rng, k4_ok)
     dc_items, dc_shown = [], []
     diamond_stream(ctx, rng, k4_ok, dc_items, dc_shown)
     n_classes = ctx.budget(200, 320)
@@ -1552,6 +1859,26 @@ def replay(rep: dict) -> int:
         print("classes, decoders and builder views are created")
         print("not reproduced")
         return 0
+    if "input_deep" in rep:
+        from mashumaro.codecs import BasicDecoder
+        sp = spec
+        while sp is not None:
+            norm_spec(sp)
+            for f in sp["levels"][0]["decls"]:
+                def tup(t):
+                    return tuple(tup(x) if isinstance(x, list) else x for x in t)
+                f["t"] = tup(f["t"])
+            sp = sp.get("inner")
+        d = rep["input_deep"]
+        call = mod.K.from_dict if rep["entry"] == "K.from_dict" else BasicDecoder(mod.K).decode
+        obs = observe_deep(call, d)
+        exp = o_deep(deep_classes(spec), "K", d)
+        def norm(o):
+            return json.loads(json.dumps(o))
+        import json
+        print(rep["source"]); print("input   ", d); print("observed", obs); print("expected", exp)
+        print("REPRODUCED" if norm(obs) != norm(exp) else "not reproduced")
+        return 1 if norm(obs) != norm(exp) else 0
     if "input_nested" in rep:
         from mashumaro.codecs import BasicDecoder
         d = {unjson_key(k): ({unjson_key(a): b for a, b in v["dict"]} if isinstance(v, dict) else v) for k, v in rep["input_nested"]}
